@@ -12,6 +12,7 @@ import (
 	"pgregory.net/rapid"
 
 	fxtypes "github.com/functionx/fx-core/v8/types"
+	crosschainkeeper "github.com/functionx/fx-core/v8/x/crosschain/keeper"
 	crosschaintypes "github.com/functionx/fx-core/v8/x/crosschain/types"
 
 	"verif/harness/ev"
@@ -52,7 +53,7 @@ func genC13(t *rapid.T) c13Case {
 		max = 90
 	}
 	n := rapid.IntRange(5, max).Draw(t, "nops")
-	kinds := []string{"bond", "bond", "adddelegate", "redelegate", "editbridger", "withdrawreward", "govset", "govset", "confirm", "confirm", "confirm", "endblock", "endblock", "endblock", "endblock", "unbond", "unbond", "mature", "slashval", "removeall"}
+	kinds := []string{"bond", "bond", "adddelegate", "redelegate", "editbridger", "withdrawreward", "govset", "govset", "confirm", "confirm", "confirm", "endblock", "endblock", "endblock", "endblock", "unbond", "unbond", "mature", "slashval", "removeall", "bridgecall"}
 	// prefix: everybody bonds, oracle 0 small (so that governance may remove it within the 30 % cap)
 	late := -1
 	if c.N >= 3 && rapid.Bool().Draw(t, "late") {
@@ -94,6 +95,18 @@ func genC13(t *rapid.T) c13Case {
 				ops = append(ops, c13Op{Kind: "endblock"})
 			}
 			c.Ops = append(c.Ops, ops...)
+			continue
+		}
+		if rapid.IntRange(0, 11).Draw(t, "rotate") == 0 {
+			// an outgoing bridge call is confirmed by everybody, then one oracle rotates its bridger, then the signed window passes
+			c.Ops = append(c.Ops, c13Op{Kind: "bridgecall"})
+			for o := 0; o < c.N; o++ {
+				c.Ops = append(c.Ops, c13Op{Kind: "confirm", O: o, What: 0})
+			}
+			c.Ops = append(c.Ops, c13Op{Kind: "editbridger", O: rapid.IntRange(0, c.N-1).Draw(t, "ro"), P: rapid.IntRange(0, 9).Draw(t, "rp"), What: 1})
+			for j := uint64(0); j < c.SignedWindow+2; j++ {
+				c.Ops = append(c.Ops, c13Op{Kind: "endblock"})
+			}
 			continue
 		}
 		if late >= 0 && rapid.IntRange(0, 9).Draw(t, "latebond") == 0 {
@@ -298,13 +311,25 @@ func runC13(c c13Case, rec *ev.Recorder) *Failure {
 			if op.What%2 == 0 {
 				nb = keys[op.P%c.N].Bridger.Acc() // possibly taken
 			}
-			h := f.App.MsgServiceRouter().Handler(&crosschaintypes.MsgEditBridger{})
+			// On this snapshot MsgEditBridger cannot pass the message router: its stateless validation demands a validator-operator
+			// prefix which the handler then refuses (DESIGN section 10). The machine calls the message server's method directly, i.e. it
+			// checks the handler as it behaves once that validation lets a message through.
 			msg := &crosschaintypes.MsgEditBridger{ChainName: ch, OracleAddress: oracleAcc.String(), BridgerAddress: nb.String()}
 			cc, write := ctx.CacheContext()
-			if _, err := h(cc, msg); err == nil { // handler level (stateless validation of this message demands a valoper prefix)
+			if _, err := crosschainkeeper.NewMsgServerImpl(k).EditBridger(cc, msg); err == nil {
 				write()
 				m.bridgerOf[o] = nb.String()
 				labels["edit-bridger"] = true
+			}
+		case "bridgecall":
+			// an outgoing bridge call without tokens (an object every online oracle has to confirm within the signed window). It needs
+			// an observed external height; the fixture records one the way any observed event would
+			if k.GetLastObservedBlockHeight(ctx).ExternalBlockHeight == 0 {
+				k.SetLastObservedBlockHeight(ctx, 1000, uint64(height))
+			}
+			u := f.Users[0]
+			if f.RunMsg(ctx, &crosschaintypes.MsgBridgeCall{ChainName: ch, Sender: u.Acc().String(), Refund: u.Acc().String(), To: sim.ExtAddrN(ch, "c13to", 1), Data: "01", Value: sdkmath.ZeroInt()}).OK() {
+				labels["bridge-call"] = true
 			}
 		case "withdrawreward":
 			f.RunMsg(ctx, &crosschaintypes.MsgWithdrawReward{ChainName: ch, OracleAddress: oracleAcc.String()})
@@ -359,6 +384,20 @@ func runC13(c c13Case, rec *ev.Recorder) *Failure {
 				}
 				return false
 			})
+			if op.What <= 2 || op.What == 4 { // and all pending outgoing bridge calls
+				k.IterateOutgoingBridgeCalls(ctx, func(bc *crosschaintypes.OutgoingBridgeCall) bool {
+					if op.What == 4 && bc.BlockHeight < uint64(m.joinedAt[o]) {
+						return false
+					}
+					if msg := f.BridgeCallConfirmMsg(ctx, ch, keys[o], bc); msg != nil {
+						if f.RunMsg(ctx, msg).OK() {
+							m.confirmed[fmt.Sprintf("%d/%s", o, objKey("bc", bc.Nonce))] = true
+							labels["bridge-call-confirmed"] = true
+						}
+					}
+					return false
+				})
+			}
 		case "endblock":
 			height++
 			ctx = ctx.WithBlockHeight(height).WithBlockTime(ctx.BlockTime().Add(5 * time.Second))
@@ -376,6 +415,16 @@ func runC13(c c13Case, rec *ev.Recorder) *Failure {
 						for i, or := range onlineBefore {
 							_ = or
 							if uint64(m.joinedAt[i]) <= os.Height && k.GetOracleSetConfirm(ctx, os.Nonce, keys[i].Oracle.Acc()) == nil {
+								justified[i] = true
+							}
+						}
+					}
+					return false
+				})
+				k.IterateOutgoingBridgeCalls(ctx, func(bc *crosschaintypes.OutgoingBridgeCall) bool {
+					if bc.BlockHeight+c.SignedWindow <= uint64(height) {
+						for i := range onlineBefore {
+							if uint64(m.joinedAt[i]) <= bc.BlockHeight && !k.HasBridgeCallConfirm(ctx, bc.Nonce, keys[i].Oracle.Acc()) {
 								justified[i] = true
 							}
 						}
